@@ -11,7 +11,8 @@ PROP = {
                                    "S_compared_both_optimizer_settings", "S_skipped_unsupported", "S_skipped_out_of_fuel",
                                    "S_skipped_laziness", "S_excluded_redeclaration",
                                    "cases_where_hypotheses_of_C01_generated_hold", "cases_Generate_rejects",
-                                   "cases_outside_side_ok"]},
+                                   "cases_outside_side_ok"],
+                    "c01t_counts": ["text_to_ast_agree", "text_to_ast_outside_lower"]},
     "trusted_base": [KERNEL, TABLES, HARNESS, NOAX,
                      "modelled, not verified against the Go source: coq/Sem/Gen.v (GenerateFunc fused with execution on the shared stack), coq/Sem/Ops.v and coq/Sem/Lib.v (operators and the pool of built-ins) are hand-written after funcGen/generator.go, value/value.go, value/operations.go and tied to the code by the three-way correspondence run on every check",
                      "the harness's own scope tracking when it translates its surface tree to a Coq ast (an unbound identifier that names a static function in call position is a static call) and its renderer; a mistake there shows as a disagreement, not as a hidden defect",
